@@ -263,6 +263,16 @@ _LATER: Dict[str, Dict[str, str]] = {
 }
 # Rules built on the concrete front-end world (DESIGN.md 11.13): texts read end to end by the evaluated front end.
 _TEXT: Dict[str, Dict[str, str]] = {
+    "C02": dict(technique="definitions of small and of huge types read end to end and compared with a layout reference written from the Specification: exact length sets, alignment, extent (C02.R9); bounds beyond 2**53 / 2**64 computed exactly (C02.R10)",
+                text="C02.R9/R10 decide the layout from the text to the model on a corpus of 10 small and 8 huge nested types (bounded)."),
+    "C08": dict(technique="assertions `_offset_ == <the reference's set>` after every field / the last variant, and `T._bit_length_` / `T._extent_` against the reference, read end to end (C08.R7)",
+                text="C08.R7 decides the intrinsics on the corpus of C02.R9 (bounded)."),
+    "C10": dict(technique="directory trees read end to end: one composite per file, order, read_files vs read_namespace, spellings of the directory arguments (C10.R10); which directory sets are rejected, also after another call in the same process (C10.R11)",
+                text="C10.R10/R11 decide completeness, order and the directory-set clause on bounded trees, with process histories."),
+    "C11": dict(technique="37 conforming and violating sets of definitions for every clause of the port-ID and minor-version rules read end to end, and 12 histories in which a set of the same names was read before (memoisation evaluated as functools.lru_cache implements it) (C11.R5)",
+                text="C11.R5 decides acceptance of conforming and rejection of violating sets end to end (bounded)."),
+    "C16": dict(technique="definitions with capacities up to 2**63 - 1 read end to end by an evaluator that refuses to walk more than 100000 elements: no enumeration that follows a capacity (C16.R8)",
+                text="C16.R8 decides the cost clause extensionally on 8 huge types."),
     "C03": dict(technique="definition texts generated from descriptions, parsed by the checker's PEG matcher over the repository's grammar file and pushed through the repository's visitors / builder / type model by evaluation of the source: mirror of the description (C03.R9), equality of the model under formatting mutations derived from the parse tree (C03.R10), canonical re-rendering read again (C03.R11)",
                 text="C03.R9-R11 decide the mirror, formatting-invariance and round-trip clauses on a generated corpus of 12 definitions (bounded)."),
     "C04": dict(technique="1056 defined and 734 undefined / malformed expression texts evaluated end to end as @print operands and compared with an independent exact reference evaluator built from the Specification's operator table (C04.R8); one expression in every syntactic context (C04.R9)",
